@@ -31,6 +31,11 @@ def scenario(task):
     try:
         for r in {cacherun.RPC_MAP[rw], cacherun.RPC_MAP[rr]}:
             drv.reference(r)
+        if task.get("denied"):
+            # "on any fsspec filesystem": a store on which a missing object is not a FileNotFoundError (403 instead of 404)
+            from harness import tracefs
+
+            tracefs.DENY.add(tracefs.norm(drv.url))
         # ---- produce
         if task["producer"] == "option":
             o = step({"op": "open", "uc": False, "cc": True, "rpc": rw}, "create_cache=True")
@@ -110,6 +115,10 @@ def scenario(task):
         if "src" in o and any(v != "parse" for v in o["src"].values()):
             out["bad"].append(("no-cache-not-parsed", f"no cache present but sources {o['src']}"))
     finally:
+        if task.get("denied"):
+            from harness import tracefs
+
+            tracefs.DENY.discard(tracefs.norm(drv.url))
         drv.close()
     return out
 
@@ -133,6 +142,10 @@ def body(chk):
                 for rw, rr in pairs:
                     tasks.append(dict(level=level, fs=fs, producer=producer, rpc_w=rw, rpc_r=rr, seed=chk.seed + i))
                     i += 1
+    for level in ("1.5", "1.1"):
+        for producer in ("option", "cli-adjacent"):
+            tasks.append(dict(level=level, fs="vtrace", producer=producer, rpc_w=1, rpc_r=3, seed=chk.seed + i, denied=True))
+            i += 1
     L.tables()
     L.instances([dict(L.SMALL_LEADER), dict(L.SMALL_LEADER, nmap=0), dict(file="volume", nfp=4), dict(file="trailer", nlow=0, lens=[]),
                  dict(file="image", kind="processed", n=4, ndata=6, bps=2), dict(file="image", kind="processed", n=3, ndata=4, bps=2),
@@ -142,7 +155,7 @@ def body(chk):
     npois = 0
     for res in results:
         t = res["task"]
-        key = f"{t['level']}:{t['fs']}:{t['producer']}:w{t['rpc_w']}:r{t['rpc_r']}"
+        key = f"{t['level']}:{t['fs']}{'(missing=EACCES)' if t.get('denied') else ''}:{t['producer']}:w{t['rpc_w']}:r{t['rpc_r']}"
         chk.count(len(res["steps"]), key)
         npois += res.get("poisoned", 0)
         for what, msg in res["bad"]:
